@@ -13,7 +13,7 @@ pub fn def_c09() -> PropDef {
         level: "exploration",
         profile: profile_c09,
         oracle: |_cfg| Box::new(C09::default()),
-        quick_runs: 20_000,
+        quick_runs: 60_000,
         thorough_runs: 500_000,
         panic_is_violation: false,
         rule: "run = multi-replica history in which every replica keeps a materialized view fed ONLY by the patches the document emits (AutoCommit::diff_incremental) after every mutating path: local transactions (at commit), rollback, apply_changes (single/batch), merge, load_incremental streams, received sync messages, load (view rebuilt from the full-state patches), fork, isolate/integrate; after each such event the view (independent patch applier R4) must equal the document read through R2: values, conflict flags, counter values, list order, text and per-unit marks. non-trivial = a remote change touched a key/element that was conflicted or a counter at the receiver; distinct by digest of the patch-kind sequence",
@@ -31,7 +31,7 @@ pub fn def_c08() -> PropDef {
         level: "exploration",
         profile: profile_c08,
         oracle: |_cfg| Box::new(C08::default()),
-        quick_runs: 12_000,
+        quick_runs: 40_000,
         thorough_runs: 300_000,
         panic_is_violation: false,
         rule: "run = multi-replica history with branches and merges; at probe points and at the end, for ordered pairs (H1, H2) of head sets from the run, in both directions: the patches of diff(H1, H2) applied by the independent applier R4 to the state at H1 (R2 at H1) must give the state at H2, including conflict flags, counter values, text and marks; the same for diff_obj on one object (recursive: compared on the subtree; non-recursive: on the object's own registers). non-trivial = neither head set is an ancestor set of the other, or the direction is backward; distinct by digest of (|anc(H1)|, |anc(H2)|, state digests)",
